@@ -893,3 +893,32 @@ func allowedOrOnlyCalledBy(c *core.Ctx, fn *core.Func, listed func(key string) b
 	}
 	return n > 0
 }
+
+// atomsBetween returns the facts that hold on every path from `from`
+// (exclusive) to `to` that avoids the given vertices: the atoms of the branch
+// edges each such path must take.
+func atomsBetween(g *core.Graph, from, to *core.V, avoid []*core.V) []core.Atom {
+	base := core.AvoidVs(avoid...)
+	if !g.ReachFrom(from, false, base)[to] {
+		return nil
+	}
+	var out []core.Atom
+	for _, bv := range g.BranchVertices() {
+		if bv.Cond.Expr == nil {
+			continue
+		}
+		for _, l := range []core.EdgeLabel{core.EdgeTrue, core.EdgeFalse} {
+			opp := core.EdgeTrue
+			if l == core.EdgeTrue {
+				opp = core.EdgeFalse
+			}
+			// the edge is on every path iff cutting it disconnects to, and the
+			// branch itself lies between (cutting the opposite edge keeps to reachable)
+			if !g.ReachFrom(from, false, base.WithEdges(core.EdgeRef{From: bv, Label: l}))[to] &&
+				g.ReachFrom(from, false, base.WithEdges(core.EdgeRef{From: bv, Label: opp}))[to] {
+				out = append(out, bv.Implied(l)...)
+			}
+		}
+	}
+	return out
+}
